@@ -559,6 +559,26 @@ func TestVerifC08CrashChild(t *testing.T) {
 			if ks := os.Getenv("VERIF_C08_INFLIGHT"); ks != "" {
 				k, _ := strconv.Atoi(ks)
 				id := pool.base[k].ID()
+				// If the interrupted operation left no record, the bundle arrives once more - over another path,
+				// i.e. with the same ID and a hop count one higher: what the store acknowledges now is what it must
+				// read back, whatever the interrupted operation left behind on disk
+				if _, qerr := s.QueryId(id); qerr != nil {
+					if v, err := bpv7.ParseBundle(bytes.NewReader(pool.enc[k])); err == nil {
+						if hcb, err := v.ExtensionBlock(bpv7.ExtBlockTypeHopCountBlock); err == nil {
+							hcb.Value.(*bpv7.HopCountBlock).Increment()
+						}
+						want := enc(&v)
+						if err := s.Push(v); err != nil {
+							d.FollowUp += " push other copy of the in-flight record: " + err.Error()
+						} else if bi, err := s.QueryId(id); err != nil {
+							d.FollowUp += " query other copy: " + err.Error()
+						} else if b, err := bi.Parts[0].Load(); err != nil {
+							d.FollowUp += " load other copy: " + err.Error()
+						} else if !bytes.Equal(enc(&b), want) {
+							d.FollowUp += " the store acknowledged another copy of the bundle (hop count one higher) but reads back other bytes"
+						}
+					}
+				}
 				if err := s.Delete(id); err != nil {
 					d.FollowUp += " delete in-flight record: " + err.Error()
 				} else if err := s.Push(pool.base[k]); err != nil {
